@@ -379,6 +379,7 @@ EXPR_WRAPPERS = {
     ('solution_node.rs::SolutionNode::set_no_backtracking', 'option_parent = &(*raw_ptr).parent_node;'): 'option_parent = nd_raw_parent(&raw_ptr, Tracked(&*heap));',
     ('solution_node.rs::SolutionNode::set_no_backtracking', 'let mut option_parent = &self.parent_node;'): 'let mut option_parent = nd_self_parent(self, Ghost(verif_me), Tracked(&*heap));',
     ('parse_goals.rs::parse_subgoal', 'if s.len() == 0 {'): 'if str_is_empty(s) {',
+    ('rule_reader.rs::load_kb_from_file', 'add_rules!(kb, rule);'): 'add_one_rule(kb, rule);',
     # the key of a predicate: the same format string in both functions (spec/kb_heap.rs)
     ('goal.rs::Goal::key', '&terms[0]'): 'vec_at(terms, 0)',
     ('unifiable.rs::Unifiable::key', '&terms[0]'): 'vec_at(terms, 0)',
